@@ -8,7 +8,7 @@ DEFAULT_CFG = dict(
     p_disj=0.12, p_multihead=0.08, p_records=0.5, p_adts=0.4, p_floats=0.4, p_unsigned=0.4,
     p_symbols=0.7, p_subset=0.4, p_eqrel=0.0, p_file_input=0.5, p_nullary=0.05, p_head_aggr=0.08,
     p_unnamed=0.12, p_const_arg=0.1, sinks_only=False, scale=1, rules_per_rel=(1, 3), body_atoms=(1, 3),
-    rec_guard=40,
+    rec_guard=40, p_rec_atom=0.3,
 )
 
 
@@ -470,7 +470,7 @@ class Gen:
         if recursive_rule:
             rels.append(r.choice(grp))
             for _ in range(natoms - 1):
-                rels.append(r.choice(grp) if self.chance(0.3) else r.choice(lower))
+                rels.append(r.choice(grp) if self.chance(c["p_rec_atom"]) else r.choice(lower))
             r.shuffle(rels)
         else:
             for _ in range(natoms):
